@@ -66,3 +66,68 @@ c.returns("partition", "HEXMAP(FILE(dfu_partition_output_file)) == HEX_PUT(HEX_E
 c.raises("GeneratorError", when="not EXISTS(input_file)", must=True, label="missing_input")
 c.raises("GeneratorError", label="unwritable_output")
 c.raises("FileNotFoundError", label="unwritable_storage_output")
+
+
+# ================================================================================================
+# B — bounded stand-in through cmd_image.main(image="update"), both hex files read back with the independent HEX reader
+# (the Intel-HEX record encoding - extended addressing - is inside the IntelHex assumption of the P part)
+# ================================================================================================
+def bounded(ctx):
+    import importlib
+    from bounded.harness import Bounded
+    from bounded import hexread
+    quick = ctx["tier"] == "quick"
+    B = Bounded(ctx, rule="cmd_image.main(image='update') for envelope file sizes 0, 1, 2, 65535, 65536, 65537 (+ multi-segment), addresses crossing 64 KiB and 16 MiB-aligned "
+                          "extended-address boundaries and at the top of the 32-bit space, cache counts 0..16; a history in ONE process that re-generates from the same path with "
+                          "a different size and different addresses; both hex files read back: storage holds ONLY the record, partition holds exactly the file bytes; distinct by case",
+                bound="6+ sizes x 7 address pairs x cache counts 0..16 (quick: 0, 1, 6, 15, 16), then an 8-step same-path history", budget_s=60 if quick else 300)
+    img = importlib.import_module("suit_generator.cmd_image")
+    d = B.fresh_dir("c16")
+
+    def run_and_check(path, size, uci, dfu, caches, case, label_suffix=""):
+        so, po = f"{d}/storage.hex", f"{d}/dfu.hex"
+        try:
+            img.main(image="update", input_file=path, storage_output_file=so, dfu_partition_output_file=po, update_candidate_info_address=uci,
+                     dfu_partition_address=dfu, dfu_max_caches=caches)
+        except Exception as e:  # noqa: BLE001
+            B.fail("update-image-generation-succeeds" + label_suffix, case, f"{type(e).__name__}: {e}")
+            return
+        data = open(path, "rb").read()
+        want = (0x55AA55AA).to_bytes(4, "little") + (1).to_bytes(4, "little") + dfu.to_bytes(4, "little") + size.to_bytes(4, "little") + bytes(8 * caches)
+        mem = hexread.parse_file(so)
+        got = bytes(mem.get(uci + i, 0) & 0xFF for i in range(len(want)))
+        if set(mem) != set(range(uci, uci + len(want))) or got != want:
+            B.fail("storage-file-holds-only-the-update-candidate-record" + label_suffix, case, f"{len(mem)} bytes, record {got[:16].hex()} expected {want[:16].hex()} (+{8 * caches} zero bytes)")
+        pm = hexread.parse_file(po) if size else (hexread.parse_file(po) if __import__("os").path.getsize(po) else {})
+        gotp = bytes(pm.get(dfu + i, 0) & 0xFF for i in range(size))
+        if set(pm) != set(range(dfu, dfu + size)) or gotp != data:
+            B.fail("partition-file-holds-exactly-the-envelope-bytes" + label_suffix, case, f"{len(pm)} bytes at {hex(min(pm)) if pm else '-'}, expected {size} at {hex(dfu)}")
+
+    sizes = [0, 1, 2, 65535, 65536, 65537] + ([] if quick else [200000])
+    addrs = [(0x0E1EEC00, 0x0E100000), (0, 0x100), (0xFFF8, 0xFFFF), (0x00FFFFF0, 0x00FFFFFE), (0x0100FFF0, 0x01FF0000), (0xFFFFFF00, 0xFFFE0000), (0x10, 0xFFFFFFFF - 70000)]
+    counts = [0, 1, 6, 15, 16] if quick else list(range(17))
+    n = 0
+    for size in sizes:
+        path = f"{d}/env_{size}.suit"
+        with open(path, "wb") as fh:
+            fh.write(bytes((i * 13 + size) & 0xFF for i in range(size)))
+        for uci, dfu in addrs:
+            for caches in counts:
+                n += 1
+                if quick and n % 3 and size not in (0, 65536):
+                    continue
+                if dfu + size > 2 ** 32 or B.out_of_time():
+                    continue
+                case = {"size": size, "uci": hex(uci), "dfu": hex(dfu), "caches": caches}
+                B.case((size, uci, dfu, caches), sample=case if n in (2, 100) else None)
+                run_and_check(path, size, uci, dfu, caches, case)
+    # history: the same path, regenerated with other sizes / addresses / counts in one process
+    path = f"{d}/same.suit"
+    for step, (size, uci, dfu, caches) in enumerate([(694, 0x1000, 0x20000, 4), (1234, 0x1000, 0x20000, 4), (0, 0x1000, 0x20000, 2), (1, 0x3000, 0x20000, 2), (65536, 0x3000, 0x40000, 0),
+                                                      (65537, 0x1000, 0x20000, 6), (10, 0x1000, 0x20000, 1), (694, 0x5000, 0x60000, 16)]):
+        with open(path, "wb") as fh:
+            fh.write(bytes((i * 7 + step) & 0xFF for i in range(size)))
+        case = {"history_step": step, "size": size, "uci": hex(uci), "dfu": hex(dfu), "caches": caches}
+        B.case(("history", step))
+        run_and_check(path, size, uci, dfu, caches, case, label_suffix="-in-a-history")
+    return B.done()
